@@ -17,6 +17,7 @@ type HonestAuth struct {
 	Salt               []byte
 	Iter               int
 	NonceSuffix        string
+	Extension          string // extension attributes of the SCRAM server-first message
 	Challenge          string // CRAM-MD5 challenge
 	TLS                *tls.ConnectionState
 
@@ -86,7 +87,7 @@ func (h *HonestAuth) Step(j int, mech string, msg []byte, has bool) AuthStep {
 		if h.scram == nil {
 			h.scram = &sasl.ScramServer{C: h.Creds, NormUser: h.NormUser, NormPass: h.NormPass,
 				P: sasl.ScramParams{Hash: sasl.HashFor(h.mech), Plus: strings.HasSuffix(h.mech, "-PLUS"),
-					Salt: h.Salt, Iter: h.Iter, NonceSuffix: h.NonceSuffix, TLS: h.TLS}}
+					Salt: h.Salt, Iter: h.Iter, NonceSuffix: h.NonceSuffix, Extension: h.Extension, TLS: h.TLS}}
 			sf, err := h.scram.ServerFirst(msg)
 			h.ClientNonce = h.scram.ClientNonce
 			if err != nil {
